@@ -367,6 +367,24 @@ var c01Skeletons = []struct {
 	{"a++ + b", func(e c01Env) rv { return rI(e.a + 1 + e.b) }},
 	{"a-- * b", func(e c01Env) rv { return rI((e.a - 1) * e.b) }},
 	{"-a++", func(e c01Env) rv { return rI(-(e.a + 1)) }},
+	{"t ? a : u ? b : c", func(e c01Env) rv {
+		if e.t {
+			return rI(e.a)
+		}
+		if e.u {
+			return rI(e.b)
+		}
+		return rI(e.c)
+	}},
+	{"t ? 0 : u ? b : c", func(e c01Env) rv {
+		if e.t {
+			return rI(0)
+		}
+		if e.u {
+			return rI(e.b)
+		}
+		return rI(e.c)
+	}},
 	{"-2++", func(e c01Env) rv { return rI(-3) }},
 	{"-2--", func(e c01Env) rv { return rI(-1) }},
 	{"a * -2++", func(e c01Env) rv { return rI(e.a * -3) }},
